@@ -3,3 +3,5 @@ pub mod c03;
 pub mod c20;
 pub mod callmon;
 pub mod relmon;
+pub mod c11;
+pub mod c01;
